@@ -3,6 +3,7 @@ import BioCantor.Driver.Proto
 import BioCantor.Spec.Location
 import BioCantor.Model.Location
 import BioCantor.Model.RelativeTo
+import BioCantor.Model.LoopGlue
 namespace BioCantor.Driver.Loc
 open BioCantor BioCantor.Proto BioCantor.Model
 
@@ -20,6 +21,23 @@ def build : RawLoc → R Location
 
 def pLoc : P (R Location) := do let r ← pRawLoc; pure (build r)
 
+/-- answer of a GENERATED kernel (`Gen/Kernels.lean`, regenerated from /repo's sources on every run) in the
+    protocol's text: documented classes as `err <Class>`, anything else as `err! <PythonClass>` -/
+def showExc (e : GenP.PyExc) : String :=
+  match LoopGlue.excErr e with
+  | some c => "err " ++ showErr c
+  | none => "err! KeyError"
+
+def showG {α} (sh : α → String) : GenP.PyR α → String
+  | .ok a => "ok " ++ sh a
+  | .error e => showExc e
+
+/-- run a generated-kernel operation on a constructed location (constructor errors are printed as usual) -/
+def withLoc (l : R Location) (f : Location → String) : String :=
+  match l with
+  | .ok x => f x
+  | .error e => "err " ++ showErr e
+
 def ops : List (String × Op) := [
   ("mk", do let l ← pLoc; pure (showR showLocation l)),
   ("len", do let l ← pLoc; pure (showR toString (do let x ← l; pure (locLen x)))),
@@ -36,6 +54,15 @@ def ops : List (String × Op) := [
   ("locrel", do
       let a ← pLoc; let b ← pLoc; let opt ← pBool
       pure (showR showLocation (do let x ← a; let y ← b; locationRelativeTo x y opt))),
+  -- the same three calls answered by the GENERATED kernels (compound loops included) instead of the hand model
+  ("gp2r", do let l ← pLoc; let p ← pInt; pure (withLoc l fun x => showG toString (LoopGlue.gp2r x p))),
+  ("gr2p", do let l ← pLoc; let r ← pInt; pure (withLoc l fun x => showG toString (LoopGlue.gr2p x r))),
+  ("grelint", do
+      let l ← pLoc; let rs ← pInt; let re ← pInt; let st ← pStrand
+      pure (withLoc l fun x =>
+        match LoopGlue.grelint x rs re st with
+        | .inl e => showExc e
+        | .inr r => showR showLocation r)),
   ("spec.bases", do
       let l ← pLoc
       pure (showR showNatList (do let x ← l; pure (Spec.locationBases x))))
